@@ -651,8 +651,10 @@ def run_impl(case):
             if pk is None:
               continue
             later = [plain_prefix(T, list(k2) if isinstance(k2, T.Key) else [k2]) for k2, _ in pairs[j + 1:]]
+            # the slot kind (array element vs row) is judged on the RESULT: an earlier pair (e.g. SELF) may have
+            # replaced the container the path runs through, and assigning an int to a ROW broadcasts (numpy)
             if all(l is not None and incomparable(pk, l) for l in later) and \
-                _elementwise(T, view, k if isinstance(k, T.Key) else T.Key((k,)), v):
+                _elementwise(T, nv, k if isinstance(k, T.Key) else T.Key((k,)), v):
               got = read(nv, k if isinstance(k, T.Key) else T.Key((k,)))
               if got[0] != 'ok' or not same(got[1], v):
                 law(i, f'after copy_and_update, {k!r} does not read the updated value')
